@@ -2,6 +2,8 @@ import KV.Dump
 import KV.InstallModel
 import KV.Generated.Install
 import KV.Wire
+import KV.EmittedF
+import KV.T1FExec
 /-! Line-protocol driver for the executable models: one request per line on stdin, one canonical answer
     line on stdout.  The correspondence check pipes the same lines to the implementation's drivers
     (verif-tagged test files in /repo) and diffs the two streams.
@@ -11,6 +13,8 @@ import KV.Wire
       V <pre> ... | <op> ...          VarPool history (ops n:<base> t:<TypeName> c:<TypeName>)
       I path=name path=name ...       TypeConverter.AddImport history
       F crash|fault                   witnesses of the install step list (failure path of C15)
+      X <decl> | fails <decl idx>.. | cancel <0|1>   outcomes the T1F semantics allows for the emitted program
+      XS <same>                       the same, followed by ` states=<n>` (states expanded by the search)
 -/
 open KV
 
@@ -223,6 +227,52 @@ def handleWire (line : String) : String :=
       | none => s!"W migrate=refused faithful={Wire.faithful c} complete={complete}"
       | some ks => s!"W migrate=ok equal={Wire.V.beq (Wire.kEval ks fuel c.ret) w} faithful={Wire.faithful c} complete={complete}"
 
+/-! outcome enumeration: `X <declaration as after "D "> | fails <decl indices> | cancel <0|1>` -/
+
+/-- declaration index of the provider of node `n` (the `i` of `P<i>` in the `E` dump) -/
+def declOfNode (p : PlanOut) (n : Nat) : Nat :=
+  (p.g.provs.getD (p.g.nodes.getD n default).prov default).decl
+
+/-- node ids carried by the fallible `exit` operations of a program -/
+def fallibleNodes (P : T1F.Prog) : List Nat :=
+  P.threads.flatMap (fun th => th.filterMap (fun op => match op with
+    | .exit o _ true => some o
+    | _ => none))
+
+def outcomeStr (p : PlanOut) (o : T1F.Outcome) : String :=
+  let leak := if o.blocked.any (fun t => t != 0) then "+leak" else ""
+  match o.result with
+  | none => "stuck"
+  | some none => "value" ++ leak
+  | some (some (.prov n)) => s!"err:P{declOfNode p n}" ++ leak
+  | some (some .ctx) => "err:ctx" ++ leak
+
+def dedupStrs : List String → List String
+  | [] => []
+  | x :: xs => if xs.contains x then dedupStrs xs else x :: dedupStrs xs
+
+def outcomeFuel : Nat := 400000
+
+def outcomesDump (withStates : Bool) (failDecls : List Nat) (cancel : Bool) (provs : List PSpec) (ret : Nat) : String :=
+  match plan provs ret with
+  | .error _ => "X ERR"
+  | .ok p =>
+    let P := emittedF p
+    let failNodes := (fallibleNodes P).filter (fun n => failDecls.contains (declOfNode p n))
+    let (outs, exhausted, n) := T1F.outcomesN P failNodes cancel outcomeFuel
+    let strs := sortStrs (dedupStrs (outs.map (outcomeStr p)))
+    "X" ++ String.join (strs.map (fun x => " " ++ x)) ++ (if exhausted then " FUEL" else "")
+      ++ (if withStates then s!" states={n}" else "")
+
+/-- `X …` the protocol line; `XS …` the same followed by ` states=<number of states expanded>` -/
+def handleOutcomes (withStates : Bool) (line : String) : String :=
+  match line.splitOn "|" with
+  | decl :: rest =>
+    let failDecls := parseNats (sectOf rest "fails")
+    let cancel := (parseNats (sectOf rest "cancel")).getD 0 0 == 1
+    handleDeclWith (outcomesDump withStates failDecls cancel) decl
+  | [] => "BAD"
+
 def handle (line : String) : String :=
   if line.startsWith "D " then handleDecl (line.drop 2).toString
   else if line.startsWith "E " then handleDeclWith planDumpE (line.drop 2).toString
@@ -231,6 +281,8 @@ def handle (line : String) : String :=
   else if line.startsWith "I " then handleImports (line.drop 2).toString
   else if line.startsWith "F " then handleInstall (line.drop 2).trimAscii.toString
   else if line.startsWith "W " then handleWire (line.drop 2).toString
+  else if line.startsWith "X " then handleOutcomes false (line.drop 2).toString
+  else if line.startsWith "XS " then handleOutcomes true (line.drop 3).toString
   else "BAD"
 
 partial def loop (h : IO.FS.Stream) (out : IO.FS.Stream) : IO Unit := do
